@@ -90,7 +90,7 @@ func c18Pairs(tier string) []c18pair {
 	group(cells.ParamCells(), "decl", "inline", func(c cells.Cell) bool {
 		_, leaf := leafTypes[c.Attrs["kind"]]
 		l := c.Attrs["loc"]
-		return leaf && c.Attrs["null"] == "0" && (l == "query" || l == "query-array" || l == "header" || l == "path") && (tier != "quick" || c.Attrs["level"] != "override")
+		return leaf && c.Attrs["null"] == "0" && (l == "query" || l == "query-array" || l == "header" || l == "path") && (tier != "quick" || c.Attrs["level"] != "override" || c.Attrs["kind"] == "int32" || c.Attrs["kind"] == "string")
 	}, func(a, b cells.Cell) *drv.DiffPayload {
 		tf := leafTypes[a.Attrs["kind"]]
 		in := map[string]string{"query": "query", "query-array": "query", "header": "header", "path": "path"}[a.Attrs["loc"]]
@@ -132,6 +132,17 @@ func c18Pairs(tier string) []c18pair {
 				return &drv.DiffPayload{Mode: "body", Spec: a.Spec, Schema: bodySchema(a), BodyOp: "/p"}
 			})
 	}
+	// content maps with two media types: inline vs component request body / response
+	group(cells.RespSetCells(), "form", "inline", func(c cells.Cell) bool {
+		return c.Attrs["fam"] == "multimedia" && c.Attrs["site"] == "reqbody" && strings.HasPrefix(c.Attrs["content"], "json")
+	}, func(a, b cells.Cell) *drv.DiffPayload {
+		return &drv.DiffPayload{Mode: "body", Spec: a.Spec, Schema: bodySchema(a), BodyOp: "/p"}
+	})
+	group(cells.RespSetCells(), "form", "inline", func(c cells.Cell) bool {
+		return c.Attrs["fam"] == "multimedia" && c.Attrs["site"] == "response"
+	}, func(a, b cells.Cell) *drv.DiffPayload {
+		return &drv.DiffPayload{Mode: "response", Resp: respPayload(a.Spec, "C18", a.ID)}
+	})
 	// responses: schema form, response form, header form
 	for _, axis := range [][2]string{{"form", "inline"}, {"rform", "inline"}} {
 		group(cells.SchemaCells(), axis[0], axis[1], func(c cells.Cell) bool { return c.Attrs["pos"] == "respbody" && quickKind(c) && c.Attrs["null"] == "0" },
